@@ -676,14 +676,14 @@ def main():
             bad += 1
             cv = code[h]
             reports.append("SPEC!=CODE  %s   [tree %s]\n--- code\n%s--- spec\n%s" % (unhex(h), enc, unhex(cv) if cv not in ("ERR", "PANIC") else cv + "\n", unhex(sref)))
-        elif not (tag == "core%d" % CURRENT_PASS[1] and False) and not (tag.startswith("core") and int(tag[4:]) > 3):
+        else:
             ctx_cases.append((obj, tag, h, sref))
     ctx_summary = ""
     if ctx_mode != "none":
         import json
         sys.path.insert(0, os.path.dirname(os.path.abspath(__file__)))
         import expr_contexts
-        # the spelling passes of the 4-operator tier stay SELECT-only as well: only trees with <= 3 operators
+        # the exhaustive shapes with more than 3 operators (core and spelling passes of the thorough tier) stay SELECT-only
         ctx_in = [c for c in ctx_cases if c[1] == "random" or count_ops(c[0]) <= 3]
         creports, cstats, (n_ctx, n_evals, n_cbad) = expr_contexts.run(
             ctx_in, ctx_mode, exprdump, run_tool, keep=keep, known_open_enabled=known_open)
